@@ -184,6 +184,26 @@ CLAIMED = {
     ),
 }
 
+# what later rounds added to the explored space of a check (appended to its level text)
+ADDED = {
+    "C01": " Later additions: pointer references and raw / const pointer-to-pointer out arguments, allocatable out arrays and inout vectors, void ** / void *& arguments, +cdesc input, implied len / len_trim, deref(raw|scalar) and void * results (the statement-table entries a coverage report showed to be compiled but never executed); every result atom again under return_scalar_pointer: scalar.",
+    "C02": " The scenario also holds overload pairs that differ only in the constness of a class argument and class results from a function two namespaces below the class, released through the library's memory destructor.",
+    "C03": " The scenario also holds an inout struct-as-class argument called five times with the reference count and identity of the caller's object observed.",
+    "C04": " The shape of fixed-size array members of bind(C) types is read from the module text and compared with the C extents in reverse order.",
+    "C05": " return_scalar_pointer on native and struct pointer results and a library class used inside a namespace are in the feature alphabet (findings recorded).",
+    "C07": " The alphabet holds a library with user splicer code in every language; pre-populated output directories hold unrelated, empty, truncated, longer and identical versions of every file.",
+    "C08": " Every 'module procedure' of a generic interface must be a procedure the module defines; class templates with three instantiations carry a member with a default_arg_suffix list.",
+    "C09": " The predicates is_pointer / is_reference / is_indirect are compared with the written chain; every ordered pair of eight small libraries created in one interpreter must read four probe declarations as when alone.",
+    "C10": " The end-to-end sweep also holds arrays of strings and implied lengths; a string function that cannot be called at all is a violation unless property C05 records the reason.",
+    "C11": " Enumerators at both ends of the int range and next to them are in the alphabet.",
+    "C12": " For every block name and way of supplying code the output under show_splicer_comments: false equals the output with comments minus the marker lines.",
+    "C13": " A line length given on a namespace, nested namespace, class or function must leave the files of the scopes around it byte-identical.",
+    "C14": " create_wrapper is also compared with the command line after each of three earlier libraries went through it in the same interpreter; attributes on arguments that fortran_generic declarations restate are in the attribute relation.",
+    "C15": " Two libraries processed one after the other in one interpreter: each run's file lists name that run's files.",
+    "C17": " Names of inner scopes declared by earlier declarations of the same library (template parameters, class members, namespace typedefs) used bare later must be refused, their qualified forms accepted.",
+    "C18": " At library level the overloads of one name are spread out between other declarations.",
+}
+
 PENDING_REASON = "check not built yet in this round (planned, see DESIGN.md section 8); not claimed until it runs"
 
 
@@ -195,6 +215,7 @@ def main():
         pid = p["id"]
         if pid in CLAIMED:
             tech, text, note, ref = CLAIMED[pid]
+            text += ADDED.get(pid, "")
             checks.append({
                 "property_id": pid,
                 "quick_cmd": "%s -m vt.run %s --tier quick" % (PY, pid),
